@@ -80,6 +80,10 @@ def cases(tier: str, seed: int) -> List[Dict[str, Any]]:
         for m, r in [((1, 2), (3, 2)), ((4, 1), (1, 4)), ((1, 1), (1, 1))]:
             out.append({"kind": "wiring", "L": L, "m": list(m), "r": list(r), "post": ["bfloat16", "half", "float", "double", "deepcopy"],
                         "fresh": list(m) == [1, 1]})
+    # the decoder built with POSITIONAL arguments in the documented order (hidden, vocab, layers, heads, dropout_p, rule)
+    for L in (1, 2, 5):
+        for m, r in [((1, 2), (3, 2)), ((4, 1), (1, 4)), ((2, 1), (1, 4))]:
+            out.append({"kind": "wiring", "L": L, "m": list(m), "r": list(r), "ctor": "positional"})
     # other constructor options of the stack (residual dropout) do not enter the taus
     for L in (1, 2, 3, 8):
         for m, r in [((1, 2), (3, 2)), ((4, 1), (1, 4))]:
@@ -211,7 +215,11 @@ def run_case(case: Dict[str, Any]) -> Dict[str, Any]:
         if case.get("dropout_p"):
             kw = dict(kw, dropout_p=case["dropout_p"])
             tag += f"|dropout_p={case['dropout_p']}"
-        dec = uu.TransformerDecoder(hidden_size=8, vocab_size=5, layers=L, heads=1, **kw)
+        if case.get("ctor") == "positional":
+            tag += "|positional"
+            dec = uu.TransformerDecoder(8, 5, L, 1, 0.0, kw["residual_scaling"])
+        else:
+            dec = uu.TransformerDecoder(hidden_size=8, vocab_size=5, layers=L, heads=1, **kw)
         steps += 2 * L
         if len(dec.layers) != L:
             viol.append({"key": "wiring|layer_count", "msg": f"{tag}: {len(dec.layers)} layers"})
